@@ -2,6 +2,7 @@ package main
 
 import (
 	"bytes"
+	"encoding/hex"
 	"encoding/json"
 	"fmt"
 
@@ -15,6 +16,11 @@ import (
 )
 
 // C14 — script inspection is total and classifies by the standard templates.
+
+// c14Outputs: the locking scripts of ONE transaction's outputs.
+type c14Outputs struct {
+	Scripts []mon.Hex `json:"scripts"`
+}
 
 type c14Script struct {
 	Script mon.Hex `json:"script"`
@@ -200,6 +206,7 @@ func init() {
 		Exhaustive: func(string) bool { return true },
 	}
 	judge := mon.Kind(p, "script", c14Judge)
+	judgeOuts := mon.Kind(p, "outputs", c14JudgeOutputs)
 
 	p.Run = func(c *mon.Ctx) {
 		if msg := refcodec.SelfTestScript(); msg != "" {
@@ -310,6 +317,39 @@ func init() {
 				}
 				r := c.Rand(n)
 				judge(c, &c14Script{Script: c14Multisig(r, mm, nn), Class: "instance:multisig-all"})
+			}
+		}
+		// ---- one transaction holding many template instances: what the node-style JSON says about
+		// output i is what the inspection says about script i (position, hex, type), however many there are
+		c.Phase("node-json-many-outputs")
+		n = 0
+		for rep := 0; rep < rounds; rep++ {
+			for _, count := range []int{1, 2, 3, 16, 31, 32, 33, 47, 48, 49, 63, 64, 65, 100, 128, 255, 256, 300, 1000} {
+				n++
+				if !c.Case(n) {
+					continue
+				}
+				r := c.Rand(n)
+				in := &c14Outputs{}
+				insts := c14Instances(r, c.Thorough)
+				for i := 0; i < count; i++ {
+					var sc []byte
+					switch k := r.Intn(10); {
+					case k < 7:
+						sc = c14Instances(r, false)[r.Intn(len(insts))].s
+					case k < 8:
+						sc = insts[(i+int(n))%len(insts)].s
+					case k < 9:
+						sc = refcodec.EncodeItems([][]byte{r.Bytes(r.Intn(40)), r.Bytes(r.Intn(5))})
+					default:
+						sc = []byte{}
+					}
+					if _, tr := refcodec.Tokenize(sc); tr >= 0 {
+						sc = []byte{0x51} // a cut push makes the whole document an error; that is judged by the single-script cases
+					}
+					in.Scripts = append(in.Scripts, sc)
+				}
+				judgeOuts(c, in)
 			}
 		}
 		c.Phase("library-built-inscriptions")
@@ -423,7 +463,7 @@ func init() {
 	}
 	p.Floor = func(a *mon.Agg) string {
 		for _, k := range []string{"instance:p2pkh", "instance:p2pk", "instance:p2sh", "instance:multisig", "instance:data", "instance:p2pkh-inscription",
-			"inscribe:library-built-recognised-by-reference", "undecodable:judged", "zero-length-push:scripts", "neg:pubkeyhash-implies-template", "neg:nulldata-implies-prefix", "nodejson:marshalled"} {
+			"inscribe:library-built-recognised-by-reference", "undecodable:judged", "zero-length-push:scripts", "neg:pubkeyhash-implies-template", "neg:nulldata-implies-prefix", "nodejson:marshalled", "nodejson-many:outputs-compared", "nodejson-many:documents>=48-outputs"} {
 			if a.Cov[k] == 0 {
 				return "counter " + k + " is zero"
 			}
@@ -628,4 +668,86 @@ func c14Judge(c *mon.Ctx, in *c14Script) {
 			return map[string]any{"script": fmt.Sprintf("%x", s[:min(len(s), 120)]), "len": len(s), "class": in.Class, "script_type": typ, "reference_template": tpl.String(), "undecodable_at": tr}
 		})
 	}
+}
+
+// c14JudgeOutputs: json.Marshal(tx.NodeJSON()) of a transaction with many outputs reports, for
+// output i, position i, the script's own hex and the type the inspection gives for that script
+// (and, for a template instance, the template's type).
+func c14JudgeOutputs(c *mon.Ctx, in *c14Outputs) {
+	c.Eval(1)
+	tx := &bt.Tx{Version: 1}
+	for i, s := range in.Scripts {
+		tx.AddOutput(&bt.Output{Satoshis: uint64(1000 + i), LockingScript: bscript.NewFromBytes(mon.Exact([]byte(s)))})
+	}
+	want := map[refcodec.Template]string{refcodec.TplP2PKH: bscript.ScriptTypePubKeyHash, refcodec.TplP2PK: bscript.ScriptTypePubKey, refcodec.TplMultisig: bscript.ScriptTypeMultiSig,
+		refcodec.TplData: bscript.ScriptTypeNullData, refcodec.TplP2PKHInscription: bscript.ScriptTypePubKeyHashInscription}
+	for pass := 0; pass < 2; pass++ { // the same object marshalled twice says the same
+		var js []byte
+		var err error
+		if !c.Try("json.Marshal(tx.NodeJSON())", func() { js, err = json.Marshal(tx.NodeJSON()) }) {
+			return
+		}
+		if err != nil {
+			c.Violationf("C14:node-json-many:error", "json.Marshal(tx.NodeJSON()) of %d decodable output scripts: %v", len(in.Scripts), err)
+			return
+		}
+		var doc struct {
+			Vout []*struct {
+				N            *int `json:"n"`
+				ScriptPubKey *struct {
+					Hex  string `json:"hex"`
+					Type string `json:"type"`
+					Asm  string `json:"asm"`
+				} `json:"scriptPubKey"`
+			} `json:"vout"`
+		}
+		if uerr := json.Unmarshal(js, &doc); uerr != nil {
+			c.Violationf("C14:node-json-many:not-json", "document of %d outputs does not parse: %v", len(in.Scripts), uerr)
+			return
+		}
+		if len(doc.Vout) != len(in.Scripts) {
+			c.Violationf("C14:node-json-many:output-count", "%d outputs in the transaction, %d in the document", len(in.Scripts), len(doc.Vout))
+			return
+		}
+		if len(in.Scripts) >= 48 {
+			c.Count("nodejson-many:documents>=48-outputs")
+		}
+		for i, s := range in.Scripts {
+			v := doc.Vout[i]
+			c.Count("nodejson-many:outputs-compared")
+			if v == nil || v.ScriptPubKey == nil || v.N == nil {
+				c.Violationf("C14:node-json-many:output-missing", "vout[%d] of %d is null or has no scriptPubKey / n", i, len(in.Scripts))
+				continue
+			}
+			if *v.N != i {
+				c.Violationf("C14:node-json-many:position", "vout[%d].n = %d (of %d outputs)", i, *v.N, len(in.Scripts))
+			}
+			if v.ScriptPubKey.Hex != hex.EncodeToString(s) {
+				c.Violationf("C14:node-json-many:hex-of-another-output", "vout[%d] of %d: hex %s, the output's script is %x", i, len(in.Scripts), v.ScriptPubKey.Hex, []byte(s))
+				continue
+			}
+			var direct, asm string
+			if !c.Try("bscript.(*Script).ScriptType", func() {
+				sc := bscript.NewFromBytes(mon.Exact([]byte(s)))
+				direct = sc.ScriptType()
+				asm, _ = sc.ToASM()
+			}) {
+				continue
+			}
+			if v.ScriptPubKey.Type != direct {
+				c.Violationf("C14:node-json-many:type-differs-from-inspection", "vout[%d] of %d: type %q, ScriptType() of the script %x says %q", i, len(in.Scripts), v.ScriptPubKey.Type, []byte(s), direct)
+			}
+			if v.ScriptPubKey.Asm != asm {
+				c.Violationf("C14:node-json-many:asm-differs-from-inspection", "vout[%d] of %d: asm %q, ToASM() of the script %x says %q", i, len(in.Scripts), v.ScriptPubKey.Asm, []byte(s), asm)
+			}
+			if w, ok := want[refcodec.Classify(s)]; ok && v.ScriptPubKey.Type != w {
+				c.Violationf("C14:node-json-many:instance-misreported", "vout[%d] of %d: type %q for a %s instance %x", i, len(in.Scripts), v.ScriptPubKey.Type, refcodec.Classify(s), []byte(s))
+			}
+		}
+	}
+	h := [][]byte{}
+	for _, s := range in.Scripts {
+		h = append(h, s)
+	}
+	c.Distinct(prng.HashBytes(h...))
 }
